@@ -1,7 +1,8 @@
 (* C15 — circuit bootstrapping (poulpy-bin-fhe/src/circuit_bootstrapping/circuit.rs: circuit_bootstrap_core,
    post_process) on ideal plaintexts: the lookup table the code builds, the accumulator after an exact blind rotation
    by the LWE message, and the row loop (rotate by -gap, trace / post_process).  Coefficients are integers in units
-   of 2^-(base2k * dnum) (the precision of the lookup table).  extension_factor = 1.  No proofs in this file. *)
+   of 2^-(base2k * dnum + lut_sc) (the precision of the lookup table's last limb).  extension_factor = 1.
+   No proofs in this file. *)
 From Coq Require Import ZArith List Bool Lia.
 From PV Require Import Gen.C15_gen Model.C15Uint.
 Import ListNotations.
@@ -14,6 +15,7 @@ Definition next_pow2 (x : Z) : Z := if x <=? 1 then 1 else 2 ^ bitlen (x - 1).
 
 Section Cbt.
   Variables (logn base2k dnum : Z).
+  Variable bb : Z.                      (* base2k of the blind-rotation key = radix of the lookup table *)
   Variable expo : bool.                 (* to_exponent *)
   Variables (ld lgo : Z).               (* log_domain, log_gap_out *)
   Let n : Z := 2 ^ logn.
@@ -27,11 +29,28 @@ Section Cbt.
       if expo then (if j =? 0 then 2 ^ (base2k * (dnum - 1 - i)) else 0)
       else j * 2 ^ (base2k * (dnum - 1 - i))
     else 0.
-  (* lookup_table_set: step = domain_size.div_round(f_len); lut_full[i*step .. (i+1)*step) = f[i]; drift = step >> 1;
+  (* the same entry as the code computes it, in i64: 1 << (res_base2k * (dnum - 1 - i)) and j as i64 * (...) wrap *)
+  Definition wrap64 (x : Z) : Z := (x + 2 ^ 63) mod 2 ^ 64 - 2 ^ 63.
+  Definition f_i64 (x : Z) : Z :=
+    let i := x mod alpha in
+    let j := x / alpha in
+    if (0 <=? x) && (x <? f_len) && (i <? dnum) then
+      if expo then (if j =? 0 then wrap64 (2 ^ (base2k * (dnum - 1 - i))) else 0)
+      else wrap64 (j * wrap64 (2 ^ (base2k * (dnum - 1 - i))))
+    else 0.
+  (* lookup_table_set(f, k = res_base2k * dnum) on a table of radix bb: the entries go to limb ceil(k / bb) - 1 scaled by
+     2^lut_sc (fi * scale, wrapping), i.e. the table is in units of 2^-(k + lut_sc);
+     step = domain_size.div_round(f_len); lut_full[i*step .. (i+1)*step) = f[i]; drift = step >> 1;
      the table is then rotated by -drift *)
+  Definition lut_sc : Z := let k := base2k * dnum in if k mod bb =? 0 then 0 else bb - k mod bb.
+  Definition lut_entry (x : Z) : Z := wrap64 (f_i64 x * 2 ^ lut_sc).
+  (* the overflow assert of circuit_bootstrap_core (since /repo a84e8a5): the exponent of the largest coefficient,
+     res_base2k * (dnum - 1) + scale bits (+ log_domain in constant mode), must stay below 63 *)
+  Definition cb_asserts : bool :=
+    base2k * Z.max 0 (dnum - 1) + lut_sc + (if expo then 0 else ld) <? 63.
   Definition step : Z := (n + f_len / 2) / f_len.
   Definition drift : Z := Z.shiftr step 1.
-  Definition lut_full : poly := fun j => if (0 <=? j) && (j <? f_len * step) then f_at (j / step) else 0.
+  Definition lut_full : poly := fun j => if (0 <=? j) && (j <? f_len * step) then lut_entry (j / step) else 0.
   Definition lut : poly := p_rot n (- drift) lut_full.
   Definition cb_gap : Z := 2 * drift.
   Definition log_gap_in : Z := bitlen (cb_gap * alpha - 1).
@@ -57,12 +76,14 @@ Section Cbt.
 
   (* row i of column 0 of the result, before GGLWE -> GGSW expansion *)
   Definition cb_row (msg i : Z) : option poly :=
-    let a := p_rot n (- (i * cb_gap)) (br_acc msg) in
-    if expo then post_process a else Some (p_trace n 0 a).
+    if cb_asserts then
+      let a := p_rot n (- (i * cb_gap)) (br_acc msg) in
+      if expo then post_process a else Some (p_trace n 0 a)
+    else None.
 
   (* the row decoded at the precision of its gadget level base2k*(i+1): nearest integer, centred *)
   Definition row_decoded (i : Z) (p : poly) : poly :=
-    let s := base2k * (dnum - 1 - i) in
+    let s := base2k * (dnum - 1 - i) + lut_sc in
     let m := 2 ^ (base2k * (i + 1)) in
     fun j => let v := ((p j + (if s =? 0 then 0 else 2 ^ (s - 1))) / 2 ^ s) mod m in
              if m / 2 <=? v then v - m else v.
